@@ -121,7 +121,16 @@ def _dict_to_obj(tpm_type, dict_obj: dict[str, any], command_code=None):
             result_type = type_map[selector_value]
         return result_type
 
-    kwargs = {k: _to_obj(get_attr_type(k), v) for k, v in dict_obj.items()}
+    def is_absent(attr_type, value):
+        """An empty TPM2B payload and a union without member have no fields: the marshaller yields None for these."""
+        if value != {}:
+            return False
+        return tpm_type.__name__.startswith("TPM2B") or hasattr(attr_type, "_selected_by")
+
+    kwargs = {
+        k: None if is_absent(get_attr_type(k), v) else _to_obj(get_attr_type(k), v)
+        for k, v in dict_obj.items()
+    }
     obj = tpm_type(**kwargs)
     if tpm_type is Response:
         object.__setattr__(obj, "_command_code", command_code)
